@@ -39,6 +39,9 @@ class Engine:
     def __init__(self, prog, kf_listed=(), step_cap=3_000_000, seed=0):
         self.prog = prog
         self.solver = z3.Solver()
+        self.solver.set('timeout', 60000)
+        self.retried = 0
+        self.last_retry_model = None
         if seed:
             self.solver.set('random_seed', seed % (2 ** 31))
         self.kf_listed = set(kf_listed)
@@ -62,16 +65,28 @@ class Engine:
         self.nqueries += 1
         t = time.time()
         r = self.solver.check(*c)
+        if r == z3.unknown:
+            # per-query time limit hit (or incompleteness): retry once in a fresh solver with another seed
+            s2 = z3.Solver()
+            s2.set('timeout', 180000)
+            s2.set('random_seed', 7 + self.nqueries % 1000)
+            for a in self.solver.assertions():
+                s2.add(a)
+            r = s2.check(*c)
+            self.last_retry_model = s2.model() if r == z3.sat else None
+            self.retried += 1
+        else:
+            self.last_retry_model = None
         self.qtime += time.time() - t
         if r == z3.unknown:
-            raise ModelGap('solver returned unknown: ' + self.solver.reason_unknown())
+            raise ModelGap('solver returned unknown (time limit 60 s + 180 s retry): ' + self.solver.reason_unknown())
         return r == z3.sat
 
     def need_model(self):
         if self.model is None:
             if not self._check():
                 raise Infeasible()
-            self.model = self.solver.model()
+            self.model = self.last_retry_model or self.solver.model()
         return self.model
 
     def eval_bool(self, cond):
@@ -468,6 +483,35 @@ class Engine:
         raise ModelGap('len of ' + repr(v))
 
     def load(self, fr, p):
+        if p[0] == 'index':
+            i = fr.L.get(p[2])
+            if isinstance(i, I) and not i.conc():
+                # read through a symbolic index: an if-then-else chain over the elements instead of a fork
+                # (MIR has already asserted idx < len)
+                v = self.load(fr, p[1])
+                items = M.as_slice(v).items() if not isinstance(v, Agg) else v.fields
+                if items and all(isinstance(x, I) and x.t == items[0].t for x in items) and len(items) <= 256:
+                    w = i.v.size()
+                    tw = WIDTH[items[0].t]
+                    if all(x.conc() for x in items) and tw <= w:
+                        # concrete table: piecewise "index + constant" over runs of constant offset
+                        # (exact; e.g. a hex-digit table becomes If(i <= 9, i + 48, i + 87))
+                        runs = []
+                        for k, x in enumerate(items):
+                            off = x.v - k
+                            if runs and runs[-1][2] == off:
+                                runs[-1][1] = k
+                            else:
+                                runs.append([k, k, off])
+                        idx = z3.Extract(tw - 1, 0, i.v) if tw < w else i.v
+                        r = idx + z3.BitVecVal(runs[-1][2], tw)
+                        for lo, hi, off in reversed(runs[:-1]):
+                            r = z3.If(z3.ULE(i.v, z3.BitVecVal(hi, w)), idx + z3.BitVecVal(off, tw), r)
+                        return from_z(items[0].t, r)
+                    r = items[-1].z()
+                    for k in range(len(items) - 2, -1, -1):
+                        r = z3.If(i.v == z3.BitVecVal(k, w), items[k].z(), r)
+                    return from_z(items[0].t, r)
         if p[0] == 'local':
             try:
                 return fr.L[p[1]]
@@ -619,6 +663,16 @@ class Engine:
             return self.operand(fr, rv[1])
         if k == 'ref':
             p = rv[1]
+            if p[0] == 'subslice':
+                # &place[from..to] / [from..len-to] from a slice pattern
+                v = self.load(fr, p[1])
+                sl = M.as_slice(v)
+                n = len(sl)
+                lo = p[2]
+                hi = (n - p[4]) if (p[3] or p[4] == 0) else p[4]
+                if lo > hi or hi > n:
+                    raise ModelGap('subslice out of range')
+                return sl.sub(lo, hi)
             if p[0] == 'deref':
                 inner = self.load(fr, p[1])
                 if isinstance(inner, (Ref, Slice, Transparent, Obj)):
